@@ -5,6 +5,7 @@ mod gateway_mode;
 mod tm_mode;
 mod gas_mode;
 mod gov_mode;
+mod its_mode;
 
 fn main() {
     if std::env::var("AXH_PANICS").is_err() { std::panic::set_hook(Box::new(|_| {})); }
@@ -18,6 +19,7 @@ fn main() {
         "tm" => tm_mode::run(seed, n),
         "gas" => gas_mode::run(seed, n),
         "gov" => gov_mode::run(seed, n),
+        "its" => its_mode::run(seed, n),
         "keccak" => { use sha3::{Digest, Keccak256}; println!("{}", hex::encode(Keccak256::digest(&hex::decode(&args[2]).unwrap()))); }
         "abi-file" => abi_mode::run_file(&args[2]),
         _ => { eprintln!("usage: axh <mode> <seed> <n>"); std::process::exit(2); }
